@@ -1000,7 +1000,7 @@ REAL_PARTNERS = ['Obs', 'num_right:int', 'num_right:float', 'num_left:int', 'num
 
 
 def plan(tier):
-    m = 4 if tier == 'quick' else 40
+    m = 4 if tier == 'quick' else 320
     p = []
     for name in FUNCS:
         p.append(('un:' + name, 6 * m))
